@@ -280,6 +280,29 @@ class ChildrenList(list):
             self._set_parent_link(item)
         self._node_reference.update_signal()
 
+    def __iadd__(self, items):
+        ''' Extends the list in-place addition (+=) with children node
+        validation.
+
+        :param items: list of items to be appened to the list.
+        :type items: list of :py:class:`psyclone.psyir.nodes.Node`
+
+        :returns: this list.
+        :rtype: :py:class:`psyclone.psyir.nodes.node.ChildrenList`
+
+        '''
+        self.extend(items)
+        return self
+
+    def __imul__(self, value):
+        '''Override the default in-place repetition (*=) as this is not
+        supported for a ChildrenList.
+
+        :raises NotImplementedError: a Node can only appear once in the tree.
+        '''
+        raise NotImplementedError("Repeating the Children of a Node is not "
+                                  "supported.")
+
     # Methods below don't insert elements but have the potential to displace
     # or change the order of the items in-place.
     def __delitem__(self, index):
